@@ -587,4 +587,51 @@ theorem grun_passing (cfg : Cfg) (evs : List GEv) : ∀ g, grun cfg g (passing g
         simp only [hf, Bool.false_eq_true, if_false, grun, gstep, validate]
         exact ih g
 
+/-! ### the blockstore: which deltas a replica really merges -/
+
+theorem handleAll_spec (l : List Delta) : ∀ (s : KRep), (∀ d ∈ l, ∀ d' ∈ l, d.id = d'.id → d = d') →
+    ∃ m, (handleAll l s).rep = mergeAll m s.rep ∧ (∀ d ∈ m, d ∈ l) ∧ (∀ d ∈ l, d ∈ m ∨ d.id ∈ s.known) := by
+  induction l with
+  | nil =>
+    intro s _
+    refine ⟨[], rfl, ?_, ?_⟩ <;> intro d h <;> cases h
+  | cons d t ih =>
+    intro s hinj
+    have hinjt : ∀ a ∈ t, ∀ b ∈ t, a.id = b.id → a = b :=
+      fun a ha b hb => hinj a (List.mem_cons_of_mem _ ha) b (List.mem_cons_of_mem _ hb)
+    by_cases hk : s.known.contains d.id = true
+    · obtain ⟨m, h1, h2, h3⟩ := ih s hinjt
+      refine ⟨m, ?_, fun x hx => List.mem_cons_of_mem _ (h2 x hx), ?_⟩
+      · simp only [handleAll, List.foldl_cons, KRep.handle, hk, if_true]; exact h1
+      · intro x hx
+        rcases List.mem_cons.1 hx with rfl | hx
+        · exact Or.inr (by simpa using hk)
+        · exact h3 x hx
+    · obtain ⟨m, h1, h2, h3⟩ := ih { rep := (s.rep.merge d).1, known := d.id :: s.known } hinjt
+      refine ⟨d :: m, ?_, ?_, ?_⟩
+      · simp only [handleAll, List.foldl_cons, KRep.handle, hk]; exact h1
+      · intro x hx
+        rcases List.mem_cons.1 hx with rfl | hx
+        · exact List.mem_cons_self
+        · exact List.mem_cons_of_mem _ (h2 x hx)
+      · intro x hx
+        rcases List.mem_cons.1 hx with rfl | hx
+        · exact Or.inl List.mem_cons_self
+        · rcases h3 x hx with h | h
+          · exact Or.inl (List.mem_cons_of_mem _ h)
+          · rcases List.mem_cons.1 h with h | h
+            · have := hinj x (List.mem_cons_of_mem _ hx) d List.mem_cons_self h
+              subst this
+              exact Or.inl List.mem_cons_self
+            · exact Or.inr h
+
+/-- from an empty blockstore a replica merges exactly the deltas delivered, each once -/
+theorem handleAll_fresh (l : List Delta) (hinj : ∀ d ∈ l, ∀ d' ∈ l, d.id = d'.id → d = d') :
+    ∃ m, (handleAll l {}).rep = mergeAll m {} ∧ ∀ d, d ∈ m ↔ d ∈ l := by
+  obtain ⟨m, h1, h2, h3⟩ := handleAll_spec l {} hinj
+  refine ⟨m, h1, fun d => ⟨h2 d, fun hd => ?_⟩⟩
+  rcases h3 d hd with h | h
+  · exact h
+  · cases h
+
 end CV.C02
